@@ -32,11 +32,13 @@ Proof.
   apply semi_exact_proj; fold ex_lr_run.
   - vm_compute. reflexivity.
   - assert (E : qc_eq_list (snd ex_lr_run) [qc_make 1 1] = true) by (vm_compute; reflexivity).
-    apply qc_eq_list_eq in E. rewrite E. repeat constructor; try qc_eq.
-  - change (fst (fst (fst ex_lr_run))) with 1%nat. intros i j Hi Hj.
+    apply qc_eq_list_eq in E. rewrite E. repeat (constructor; try qc_eq).
+  - assert (Hr : fst (fst (fst ex_lr_run)) = 1%nat) by (vm_compute; reflexivity). rewrite Hr. intros i j Hi Hj.
     destruct i as [|[|[|[|i]]]]; try lia; destruct j as [|[|[|[|j]]]]; try lia; qc_eq.
-  - change (fst (fst (fst ex_lr_run))) with 1%nat. intros _. split.
-    + destruct (potrf_rec Qc ps_F 32 32 1 1 0 1 (semi_gram Qc ps_F 4 1 (snd (fst (fst ex_lr_run))))) as [Lc|k Lc|] eqn:E; [eauto| |]; vm_compute in E; discriminate.
+  - assert (Hr : fst (fst (fst ex_lr_run)) = 1%nat) by (vm_compute; reflexivity). rewrite Hr. intros _. split.
+    + assert (Hp : match potrf_rec Qc ps_F 32 32 1 1 0 1 (semi_gram Qc ps_F 4 1 (snd (fst (fst ex_lr_run)))) with BOk _ Lc => qc_eqb (Lc 0 0)%nat (qc_make 2 1) = true | _ => False end)
+        by (vm_compute; reflexivity).
+      destruct (potrf_rec Qc ps_F 32 32 1 1 0 1 (semi_gram Qc ps_F 4 1 (snd (fst (fst ex_lr_run))))) as [Lc|k Lc|]; [eauto|contradiction|contradiction].
     + intros j L Hj H _. destruct j as [|j]; [|lia]. cbn [potrf_lower] in H. inversion H; subst L. qc_eq.
 Qed.
 
@@ -45,7 +47,9 @@ Lemma ex_lr_hypotheses :
   exists betas, lrc_train Qc ps_F qc_abs 3 1 (q_ 0) ps_epsm ex_lr_D = Some betas.
 Proof.
   split; [reflexivity|]. split; [exact ex_lr_semi_exact|].
-  destruct (lrc_train Qc ps_F qc_abs 3 1 (q_ 0) ps_epsm ex_lr_D) as [b|] eqn:E; [eauto|]. vm_compute in E. discriminate.
+  assert (Hp : match lrc_train Qc ps_F qc_abs 3 1 (q_ 0) ps_epsm ex_lr_D with
+               | Some [b] => qc_eq_list (tab Qc 4 b) [qc_make 1 1; qc_make 1 1; qc_make 1 1; qc_make 1 1] = true | _ => False end) by (vm_compute; reflexivity).
+  destruct (lrc_train Qc ps_F qc_abs 3 1 (q_ 0) ps_epsm ex_lr_D) as [b|]; [eauto|contradiction].
 Qed.
 
 (* (b) *)
@@ -64,11 +68,14 @@ Proof.
   - apply semi_exact_proj; fold ex_lda_C; fold ex_lda_run.
     + vm_compute. reflexivity.
     + assert (E : qc_eq_list (snd ex_lda_run) [qc_make 1 1] = true) by (vm_compute; reflexivity).
-      apply qc_eq_list_eq in E. rewrite E. repeat constructor; try qc_eq.
-    + change (fst (fst (fst ex_lda_run))) with 1%nat. intros; lia.
-    + change (fst (fst (fst ex_lda_run))) with 1%nat. intros; lia.
-  - unfold ldaw_met, ex_lda_D. cbn [concat app map ww snd]. repeat constructor; try qc_eq.
-  - destruct (ldaw_train Qc ps_F qc_abs (qc_make 1 2) 1 2 (q_ 0) ps_epsm ex_lda_D) as [b|] eqn:E; [eauto|]. vm_compute in E. discriminate.
+      apply qc_eq_list_eq in E. rewrite E. repeat (constructor; try qc_eq).
+    + assert (Hr : fst (fst (fst ex_lda_run)) = 1%nat) by (vm_compute; reflexivity). rewrite Hr. intros; lia.
+    + assert (Hr : fst (fst (fst ex_lda_run)) = 1%nat) by (vm_compute; reflexivity). rewrite Hr. intros; lia.
+  - unfold ldaw_met, ex_lda_D. cbn [concat app map ww snd]. repeat (constructor; try qc_eq).
+  - assert (Hp : match ldaw_train Qc ps_F qc_abs (qc_make 1 2) 1 2 (q_ 0) ps_epsm ex_lda_D with
+                 | Some r => match lda_z Qc r with [z0; z1] => (qc_eqb (z0 O) (q_ 0) && qc_eqb (z1 O) (q_ 4))%bool = true | _ => False end
+                 | None => False end) by (vm_compute; reflexivity).
+    destruct (ldaw_train Qc ps_F qc_abs (qc_make 1 2) 1 2 (q_ 0) ps_epsm ex_lda_D) as [b|]; [eauto|contradiction].
   - qc_eq.
   - qc_eq.
 Qed.
